@@ -4,6 +4,7 @@ import (
 	internaltypes "lunar/engine/streams/internal-types"
 	publictypes "lunar/engine/streams/public-types"
 	"lunar/toolkit-core/urltree"
+	"strings"
 
 	"github.com/rs/zerolog/log"
 )
@@ -65,12 +66,26 @@ func (f *FilterTree) AddFlow(flow internaltypes.FlowI) error {
 	return f.tree.InsertDeclaredURL(filter.GetURL(), filterNode)
 }
 
+// lookupURL returns the URL in the form flows are declared in and HAProxy reports it
+// (host + path). A request rewritten by a processor (TransformAPICall) carries its scheme
+// and query string, which matched no flow: after an early response the response flows and
+// the system flows of the transaction were silently skipped.
+func lookupURL(url string) string {
+	if i := strings.Index(url, "://"); i >= 0 {
+		url = url[i+3:]
+	}
+	if i := strings.IndexAny(url, "?#"); i >= 0 {
+		url = url[:i]
+	}
+	return url
+}
+
 // Get flow based on the API stream
 func (f *FilterTree) GetFlow(
 	APIStream publictypes.APIStreamI,
 ) (internaltypes.FilterTreeResultI, bool) {
 	flows := &FilterResult{}
-	url := APIStream.GetURL()
+	url := lookupURL(APIStream.GetURL())
 	lookupResult := f.tree.Traversal(url)
 	if len(lookupResult.Value) == 0 {
 		log.Trace().Msgf("No filter found for %v - %v", url, lookupResult.Value)
